@@ -156,28 +156,47 @@ Definition taints (s : sprov) : bool :=
 (* one provider of characterizeAndFlatten: characterize as if its inputs were static; if that makes
    it static but one of its inputs is tainted (comes from invoke or a run-group provider listed
    earlier), characterize again with inputsAreStatic = false *)
-Definition char_one (te : tyenv) (d : pdesc) (isLast : bool) (nonStatic : list nat) : option sprov :=
+(* what a provider that has not been characterized puts out downward (flows.go: provider.DownFlows) *)
+Definition down_outs_of (te : tyenv) (d : pdesc) : list nat :=
+  match d_shape d with
+  | ShLit t => [t]
+  | ShFn _ outs => filter (fun t => negb (t =? te_terminalT te)) outs
+  | ShWrap _ ii _ _ => ii
+  | _ => []
+  end.
+
+(* (interface, type) pairs: the interface may be satisfied by that output of a provider Loose for it *)
+Definition loose_for (te : tyenv) (l : list pdesc) : list (nat * nat) :=
+  flat_map (fun d => flat_map (fun i => if is_iface te i
+                                        then flat_map (fun out => if implements te out i then [(i, out)] else []) (down_outs_of te d)
+                                        else []) (d_loose d)) l.
+
+(* an input is non-static if its type is, or if it is an interface that a Loose provider may
+   satisfy with a non-static type *)
+Definition tainted_in (looseFor : list (nat * nat)) (nonStatic : list nat) (t : nat) : bool :=
+  memb t nonStatic || existsb (fun pr : nat * nat => (fst pr =? t) && memb (snd pr) nonStatic) looseFor.
+
+Definition char_one (te : tyenv) (d : pdesc) (isLast : bool) (looseFor : list (nat * nat)) (nonStatic : list nat) : option sprov :=
   match characterizeFunc te d (mkCC isLast true) with
   | None => None
   | Some s0 =>
-    if group_eqb (s_group s0) GStatic && existsb (fun t => memb t nonStatic) (fl (f_in (s_flows s0)))
+    if group_eqb (s_group s0) GStatic && existsb (tainted_in looseFor nonStatic) (fl (f_in (s_flows s0)))
     then characterizeFunc te d (mkCC isLast false) else Some s0
   end.
 
-Fixpoint char_loop (te : tyenv) (l : list pdesc) (nonStatic : list nat)
+Fixpoint char_loop (te : tyenv) (l : list pdesc) (looseFor : list (nat * nat)) (nonStatic : list nat)
          (accInit accInvoke : list sprov) : res (list sprov * list sprov) :=
   match l with
   | [] => Ok (rev accInit, rev accInvoke)
   | d :: r =>
     let isLast := match r with [] => true | _ => false end in
-    match char_one te d isLast nonStatic with
+    match char_one te d isLast looseFor nonStatic with
     | None => Err EB_NOMATCH
     | Some s =>
-      (* the outputs of a per-invocation provider, and the interfaces it may satisfy (Loose), are not static *)
-      let nonStatic' := if taints s then fl (f_out (s_flows s)) ++ d_loose d ++ nonStatic else nonStatic in
+      let nonStatic' := if taints s then fl (f_out (s_flows s)) ++ nonStatic else nonStatic in
       match s_group s with
-      | GStatic | GLiteral => char_loop te r nonStatic' (s :: accInit) accInvoke
-      | GFinal | GRun => char_loop te r nonStatic' accInit (s :: accInvoke)
+      | GStatic | GLiteral => char_loop te r looseFor nonStatic' (s :: accInit) accInvoke
+      | GFinal | GRun => char_loop te r looseFor nonStatic' accInit (s :: accInvoke)
       | GInvoke => Err EB_INTERNAL
       end
     end
@@ -191,7 +210,7 @@ Fixpoint pretaint (te : tyenv) (l : list pdesc) : list nat :=
     let isLast := match r with [] => true | _ => false end in
     (if d_reorder d then
        match characterizeFunc te d (mkCC isLast true) with
-       | Some s => if group_eqb (s_group s) GRun then fl (f_out (s_flows s)) ++ d_loose d else []
+       | Some s => if group_eqb (s_group s) GRun then fl (f_out (s_flows s)) else []
        | None => []
        end
      else []) ++ pretaint te r
@@ -200,4 +219,4 @@ Fixpoint pretaint (te : tyenv) (l : list pdesc) : list nat :=
 Definition characterize_and_flatten (te : tyenv) (l : list pdesc) (nonStatic : list nat)
   : res (list sprov * list sprov) :=
   let l' := reorder_nonfinal l in
-  char_loop te l' (pretaint te l' ++ nonStatic) [] [].
+  char_loop te l' (loose_for te l') (pretaint te l' ++ nonStatic) [] [].
